@@ -93,7 +93,16 @@ Definition no_style (o : gobj) : bool := match gstyle o with [] => true | _ => f
 
 Definition cstep (p : program) (d : decl) (rp r : impl) : list N :=
   match r with
-  | IErr _ => []
+  | IErr _ =>
+      (* these declarations (no underscore, valid values) cannot fail when the prefix compiled *)
+      match rp, d with
+      | IBoard _, DAttr (O, _ :: _) _ (Some _) => [11]
+      | IBoard _, DAttr (O, _ :: _) _ None => [13]
+      | IBoard _, DObj (O, _ :: _) (PStr _) None => [14]
+      | IBoard _, DObj (O, _ :: _) PNull _ => [15]
+      | IBoard _, DEdge (O, _ :: _) (O, _ :: _) _ _ (Some _) PNull _ => [17]
+      | _, _ => []
+      end%N
   | IBoard b =>
       flag (cl_merge b) 10
       ++ match d with
